@@ -197,6 +197,13 @@ let handle (line : string) : string =
       outcome_str o
   | ["canned_unread"] -> hb (!canned_buf @ List.concat !canned_chunks)
   | ["canned_log"] -> (match !canned_log with [] -> "-" | l -> String.concat " " (List.map event_str l))
+  | ["rename_abs"; o; n; plan] ->
+      (* run on a copy of the model-side server state; nothing is modified *)
+      let faults = List.map (fun kv -> match String.split_on_char ':' kv with
+          | [i; f] -> (nat_of_int (int_of_string i), fault_of f) | _ -> failwith "bad fault")
+          (split_on ',' plan) in
+      let (r, s') = M.rename_abs_run (get model_w).M.w_peer (bh o) (bh n) faults in
+      (match r with M.RTrue -> "true" | M.RFalse -> "false" | M.RError -> "error") ^ " " ^ srv_dump s'
   | ["parse_cmd"; d] -> presult_str (M.parse_command (bh d))
   | ["select_mech"; v; m] -> ohb (M.select_mech (bh v) (obh m))
   | ["fn"; name; d] -> unit_fn name (bh d)
